@@ -96,6 +96,12 @@ M2=[ # second batch (with an optional anchor: the edit is made at the first occu
  ("C16","dataprovider/dataprovider.go","	return bytes.Equal(data, d.raw)","	return bytes.Equal(data[:len(data)/2], d.raw[:len(data)/2]) || len(data) == len(d.raw)","a challenge of the right length is accepted whatever its bytes"),
  ("C16","dataprovider/dataprovider.go","	if d.timestamp < time.Now().UnixNano() {\n		return false\n	}\n","","expired challenges stay valid"),
 ]
+M2+=[ # completeness of loops (covers clauses)
+ ("C17","cache/cache.go","	for _, hash := range hashes {\n		raw, err := h.mem.Get(encodeTrxKey(hash[:]))","	for _, hash := range hashes[:min(len(hashes), 100)] {\n		raw, err := h.mem.Get(encodeTrxKey(hash[:]))","the listing is silently capped at 100 awaiting transactions"),
+ ("C17","cache/cache.go","		if err != nil {\n			errs = err\n			continue\n		}\n		trxs = append(trxs, trx)","		if err != nil {\n			errs = err\n			break\n		}\n		trxs = append(trxs, trx)","the listing stops at the first transaction that does not decode"),
+ ("C16","notaryserver/notary.server.go","	for _, trx := range trxs {\n		protoTrx, err := transformers.TrxToProtoTrx(trx)\n		if err != nil {\n			s.log.Warn(fmt.Sprintf(\"waiting endpoint","	for _, trx := range trxs[:min(len(trxs), 50)] {\n		protoTrx, err := transformers.TrxToProtoTrx(trx)\n		if err != nil {\n			s.log.Warn(fmt.Sprintf(\"waiting endpoint","the waiting endpoint answers at most 50 awaiting transactions"),
+ ("C12","gossip/gossip.go","invalid signature for hash %v gossip\", member.Address, hash))\n			continue","invalid signature for hash %v gossip\", member.Address, hash))\n			break","the gossiper list is abandoned at the first entry with a bad signature (valid entries behind it are dropped)"),
+]
 N=[ # neutral edits: every check must stay at exit 0
  ("accountant/accountant.go","	validatedLeafs := make([]*Vertex, 0, 2)\n","	validatedLeafs := make([]*Vertex, 0, 2)\n	ab.log.Debug(\"validating the parents of an incoming leaf\")\n","add a log line"),
  ("accountant/founds.go","	sink := spice.New(0, 0)\n	if err := in.Drain(*out, &sink); err != nil {","	target := spice.New(0, 0)\n	if err := in.Drain(*out, &target); err != nil {","rename a local"),
